@@ -26,7 +26,7 @@
   "C14"
  ],
  "level": "U/iter",
- "tier": "quick",
+ "tier": "thorough",
  "harness": "h_write_bitmaps",
  "sources": [
   "lib/ext2fs/bitops.c"
